@@ -211,6 +211,37 @@ for detail in ("hash", "all"):
         if o_.get("sha256") != i_.get("sha256"):
             failures.append({"class": "data-digest-is-not-a-function-of-the-content-that-flowed", "detail": detail, "node": k, "slot": "output->next input"})
 
+# ---- context digests chain: what node k's SER says about the context after it is what node k+1's SER says about the context before
+#      it - also across nodes that only delete keys or rename them -------------------------------------------------------------------
+from semantiva.examples.test_utils import FloatCollectValueProbe
+for detail in ("hash", "all"):
+    evaluations += 1
+    distinct.add(("context-digest-chain", detail))
+    path = tmp / f"chain_{detail}.jsonl"
+    nodes = [{"processor": FloatValueDataSourceWithDefault}, {"processor": FloatCollectValueProbe, "context_key": "seen"}, {"processor": "delete:seen"},
+             {"processor": FloatCollectValueProbe, "context_key": "again"}, {"processor": "rename:again:kept"}, {"processor": "delete:extra"},
+             {"processor": FloatMultiplyOperation, "parameters": {"factor": 2.0}}]
+    drv = JsonlTraceDriver(str(path), detail=detail)
+    try:
+        Pipeline(nodes, trace=drv).process(Payload(NoDataType(), ContextType({"extra": 1})))
+    except Exception as e:       # noqa
+        failures.append({"class": "context-digest-chain-case-raised", "detail": detail, "exc": repr(e)[:200]})
+        continue
+    finally:
+        drv.close()
+    sers = [json.loads(l) for l in path.read_text().splitlines() if l.strip() and json.loads(l).get("record_type") == "ser"]
+    for k in range(len(sers) - 1):
+        post = ((sers[k].get("summaries") or {}).get("post_context") or {}).get("sha256")
+        pre = ((sers[k + 1].get("summaries") or {}).get("pre_context") or {}).get("sha256")
+        if post != pre:
+            failures.append({"class": "context-digest-is-not-a-function-of-the-context-at-that-point", "detail": detail, "node": k, "post_context_of_node": post, "pre_context_of_next_node": pre})
+            break
+    # a node that removed a key has a different context after it than before it
+    for k in (2, 5):
+        s_ = (sers[k].get("summaries") or {}) if k < len(sers) else {}
+        if s_.get("pre_context", {}).get("sha256") is not None and s_.get("pre_context", {}).get("sha256") == s_.get("post_context", {}).get("sha256"):
+            failures.append({"class": "context-digest-is-not-a-function-of-the-context-at-that-point", "detail": detail, "node": k, "why": "digest unchanged across a deletion"})
+
 # ---- created_keys / updated_keys against the set-difference definition, exhaustively over small contexts whose values include
 #      None and other falsy values (a key present with value None is PRESENT) ---------------------------------------------------
 import itertools as _it
@@ -232,7 +263,7 @@ distinct.add(("delta-exhaustive", len(STATES)))
 
 import shutil
 shutil.rmtree(tmp, ignore_errors=True)
-print(json.dumps({"bound": "data digests of 3-node pipelines with in-place vs copying operations x 2 detail levels; delta: 2 keys x 8 before-states x 8 after-states (absent, None, 0, 1, '', 'x', [1], False) exhaustively; 3 processors (source with a default, operation with a required parameter, operation with required + defaulted parameter) x every placement of each parameter in {configuration, context, neither}",
+print(json.dumps({"bound": "context digest chain over a 7-node pipeline with delete / rename nodes x 2 detail levels; data digests of 3-node pipelines with in-place vs copying operations x 2 detail levels; delta: 2 keys x 8 before-states x 8 after-states (absent, None, 0, 1, '', 'x', [1], False) exhaustively; 3 processors (source with a default, operation with a required parameter, operation with required + defaulted parameter) x every placement of each parameter in {configuration, context, neither}",
                   "evaluations": evaluations, "distinct_nontrivial": len(distinct),
                   "rule": "distinct = (processor, placement vector) of runs that resolved; SER of the last node read back from the JSONL trace",
                   "failures": failures[:40], "samples": samples}, default=str))
